@@ -33,11 +33,12 @@ where
     P: Point,
     F: Fn(&P, &P) -> f64 + Send + Sync + Clone,
 {
-    if points.is_empty() {
+    const K_PER_TIER: usize = 2;
+
+    // not enough data for clustering: there is no tier which has a cluster to split
+    if points.len() < K_PER_TIER {
         return Vec::default();
     }
-
-    const K_PER_TIER: usize = 2;
 
     (0..max_tiers)
         .scan(vec![(Option::<P>::None, points.to_vec())], |current_clusters, _| {
